@@ -314,7 +314,7 @@ func gen() ([]byte, error) {
 	}
 	var b bytes.Buffer
 	b.WriteString("(* generated by translator/cmd/c13locks from server/group/{tcp,http,tcpmux}.go — do not edit *)\n")
-	b.WriteString("From FRP Require Import Model.GroupLocks.\nOpen Scope string_scope.\n\n")
+	b.WriteString("From FRP Require Import Model.GroupLocks.\nLocal Open Scope string_scope.\n\n")
 	b.WriteString("Definition C13Locks_translated : bool := true.\n\n")
 	b.WriteString("Definition group_lock_facts : list (string * list glev) := [\n")
 	order := []string{"TCPGroupCtl.Listen", "TCPGroup.CloseListener", "HTTPGroupController.Register",
